@@ -58,10 +58,30 @@ def run(ctx):
     pool = ThreadPoolExecutor(max_workers=6 if q else 8)
     wk = max(2, lib.NCPU // 4)
 
-    # 1. the design and its deviation candidates, exhaustively (<= 3 records, lengths 0..3 + one oversize,
+    # 1. behaviours (submitted first: the replay waits for them): every maximal path of RecordLayerGen for small constants (every chunking x every
+    #    placement of the writes), plus simulated long ones with the real header length
+    gens = [
+        ("h2", dict(H=2, BUF=2, LENS="{0,1,2,3}", MAXREC=2)),
+        ("h3", dict(H=3, BUF=2, LENS="{0,2,3}", MAXREC=2)),
+        ("h5", dict(H=5, BUF=1, LENS="{0,1,2}", MAXREC=2)),
+    ]
+    if q:
+        gens.append(("r3", dict(H=2, BUF=1, LENS="{0,1,2}", MAXREC=3)))
+    else:
+        gens.append(("w2", dict(H=2, BUF=2, LENS="{0,1,3}", MAXREC=2, NW=2)))
+        gens.append(("r3", dict(H=2, BUF=2, LENS="{0,1,2,3}", MAXREC=3)))
+        gens.append(("h5b", dict(H=5, BUF=2, LENS="{0,2,3}", MAXREC=2)))
+    sims = [("s6", 400, dict(H=5, BUF=3, LENS="{0,1,2,3,4}", MAXREC=6))]
+    if not q:
+        sims = [("s5", 4000, dict(H=5, BUF=3, LENS="{0,1,2,3,4}", MAXREC=5)),
+                ("s9", 1500, dict(H=5, BUF=3, LENS="{0,1,2,3}", MAXREC=9))]
+    f_gen = [(tag, pool.submit(gen, ctx, tag, wk, **kw)) for tag, kw in gens]
+    f_gen += [(tag, pool.submit(gen, ctx, tag, 1, simulate=num, depth=200, **kw)) for tag, num, kw in sims]
+
+    # 2. the design and its deviation candidates, exhaustively (<= 3 records, lengths 0..3 + one oversize,
     #    every chunking, 2 writers)
     big = {} if q else {"MAXREC": 4}
-    f_pos = {"atomic": pool.submit(mc, ctx, "atomic", wk, **big)}
+    f_pos = {"atomic": pool.submit(mc, ctx, "atomic", wk if q else 2 * wk, **big)}
     if q:  # the mutex-protected two-write design (WebSocketConn.writeM around gorilla's multi-Write messages)
         f_pos["splitLocked"] = pool.submit(mc, ctx, "splitLocked", wk, WMODE="splitLocked", H=3, BUF=2, LENS="{0,1,2,3}")
     else:
@@ -74,36 +94,15 @@ def run(ctx):
     }
     if not q:
         f_neg["split_reader"] = (pool.submit(mc, ctx, "neg_split_reader", 2, WMODE="split", INVS="Whole"), "Whole")
-    # 2. behaviours: every maximal path of RecordLayerGen for small constants (every chunking x every
-    #    placement of the writes), plus simulated long ones with the real header length
-    gens = [
-        ("h2", dict(H=2, BUF=2, LENS="{0,1,2,3}", MAXREC=2)),
-        ("h3", dict(H=3, BUF=2, LENS="{0,2,3}", MAXREC=2)),
-        ("h5", dict(H=5, BUF=1, LENS="{0,1,2}", MAXREC=2)),
-        ("w2", dict(H=2, BUF=2, LENS="{0,1,3}", MAXREC=2, NW=2)),
-    ]
-    if q:
-        gens.append(("r3", dict(H=2, BUF=1, LENS="{0,1,2}", MAXREC=3)))
-    else:
-        gens.append(("r3", dict(H=2, BUF=2, LENS="{0,1,2,3}", MAXREC=3)))
-        gens.append(("h5b", dict(H=5, BUF=2, LENS="{0,2,3}", MAXREC=2)))
-    sims = [("s6", 400, dict(H=5, BUF=3, LENS="{0,1,2,3,4}", MAXREC=6))]
-    if not q:
-        sims = [("s5", 4000, dict(H=5, BUF=3, LENS="{0,1,2,3,4}", MAXREC=5)),
-                ("s9", 1500, dict(H=5, BUF=3, LENS="{0,1,2,3}", MAXREC=9))]
-    f_gen = [(tag, pool.submit(gen, ctx, tag, wk, **kw)) for tag, kw in gens]
-    f_gen += [(tag, pool.submit(gen, ctx, tag, 1, simulate=num, depth=200, **kw)) for tag, num, kw in sims]
-
     # 3. while TLC works: concretisation sweeps and concurrent-writer recordings on the real code
-    sweep = lib.run_go(ctx, "common", "TestVerifC05Sweep", timeout=1500)
-    lib.collect_go(ctx, sweep)
-    conc = lib.run_go(ctx, "common", "TestVerifC05Conc", timeout=1500)
-    lib.collect_go(ctx, conc)
+    live = lib.run_go(ctx, "common", "TestVerifC05Live", timeout=1500)
+    lib.collect_go(ctx, live)
+    conc = live
     tpath = os.path.join(conc["_out_dir"], "trace.ndjson")
     tlines = open(tpath).read().splitlines()
     nev = len(tlines)
     f_trace = []  # (first line index, future): connections are independent, so the recording is validated in parallel parts
-    for ci, (a, b) in enumerate(split_trace(tlines, 2 if q else 8)):
+    for ci, (a, b) in enumerate(split_trace(tlines, 1 if q else 8)):
         part = os.path.join(ctx.work, "c05_trace_%d.ndjson" % ci)
         with open(part, "w") as fh:
             fh.write("\n".join(tlines[a:b]) + "\n")
@@ -135,7 +134,7 @@ def run(ctx):
                                    "the invariant is vacuous or the model drifted" % (name, inv, r.violated))
         ctx.log("deviation %s: %s refuted after %d states (as required)" % (name, inv, r.distinct))
 
-    for r in (sweep, conc, rep):
+    for r in (live, rep):
         st = r["stats"]
         if st.get("model_drift") or st.get("harness_stuck") or st.get("ws_setup_failed"):
             raise lib.Inconclusive("harness trouble (not a verdict): %s %s" % (
@@ -143,7 +142,7 @@ def run(ctx):
     if conc["stats"].get("tcp_skipped"):
         ctx.notes.append("loopback TCP unavailable: tls-tcp recordings skipped")
 
-    traces_ok = conc["evaluations"]
+    traces_ok = int(live["stats"].get("conc_runs", 0))
     tstates = 0
     for off, f in f_trace:
         v = f.result()
@@ -176,8 +175,8 @@ def run(ctx):
     ctx.tlc_transitions = sum(r["generated"] for r in ctx.tlc_runs)
 
     cov = {
-        "evaluations": rep["evaluations"] + sweep["evaluations"] + conc["evaluations"],
-        "distinct_nontrivial": rep["distinct_nontrivial"] + sweep["distinct_nontrivial"] + conc["distinct_nontrivial"],
+        "evaluations": rep["evaluations"] + live["evaluations"],
+        "distinct_nontrivial": rep["distinct_nontrivial"] + live["distinct_nontrivial"],
         "rule": "replay: every maximal path of RecordLayerGen (all chunkings x all placements of the writes; H in {2,3,5}, "
                 "<=3 records, lengths 0..Buf+1) plus TLC -simulate paths with H=5 and up to 9 records, each under %d "
                 "concretisations (grouping of the 5 real header bytes and of the real body into model bytes, real lengths up to "
@@ -188,16 +187,16 @@ def run(ctx):
                 "multi-cuts}; non-trivial = a cut falls inside a record. conc: k in {2,8,32} writers x {seg conn, loopback TCP, "
                 "WebSocket c2s/s2c} x {fitting, oversize} buffers + parked-writer schedules; distinct = distinct case signature"
                 % (2 if q else 4),
-        "samples": rep["samples"] + sweep["samples"][:4] + conc["samples"][:3],
+        "samples": rep["samples"] + live["samples"],
         "traces_validated_against_impl": len(behaviours) + traces_ok,
         "behaviours_replayed": len(behaviours),
         "trace_events_validated": nev,
-        "concurrent_runs_recorded": conc["evaluations"],
+        "concurrent_runs_recorded": int(live["stats"].get("conc_runs", 0)),
         "negative_configs_refuted": sorted(f_neg),
         "exhaustive": True,
         "checker_cmd": "tlc RecordLayer.tla (atomic, splitLocked, split x1 writer; negative: split, single, trunc) / "
-                       "RecordLayerGen.tla / RecordLayerTrace.tla + go test -run 'TestVerifC05(Replay|Sweep|Conc)' ./internal/common/",
-        "harness_stats": {"replay": rep["stats"], "sweep": sweep["stats"], "conc": conc["stats"]},
+                       "RecordLayerGen.tla / RecordLayerTrace.tla + go test -run 'TestVerifC05(Live|Replay)' ./internal/common/",
+        "harness_stats": {"replay": rep["stats"], "live": live["stats"]},
     }
     return lib.finish(ctx, LEVEL, cov, ASSUME)
 
